@@ -23,18 +23,13 @@ func oracleCleanName(n string) (string, bool) {
 	return c, true
 }
 
-// oracleVerifyNormalised: the oracle on the scenario with every artifact name replaced by the path it denotes.
-// No claim ("") when two names of one map denote the same path, when a name denotes no proper path, or when a
-// MODIFY rule meets an artifact recorded under an unclean name on either side unless exactly one side is unclean
-// and the digests differ (DEVIATION OF THE CODE, reported to the coordinator: VerifyArtifacts looks the cleaned
-// name up in the maps as recorded, so an UNCHANGED file whose material or product entry is unclean counts as
-// modified and one whose entries are both unclean never does; the model reproduces this, see model/Rules.v).
+// oracleVerifyNormalised: the oracle on the scenario with every artifact name replaced by the path it denotes
+// (an artifact is identified by its cleaned path, for every rule type including MODIFY — F21 repaired).
+// No claim ("") when two names of one map denote the same path or when a name denotes no proper path.
 func oracleVerifyNormalised(in vInput) string {
 	out := vInput{Items: in.Items, Meta: map[string]linkIn{}}
-	unclean := map[string]map[string]int{} // link -> cleaned path -> number of sides recorded unclean
 	for name, l := range in.Meta {
 		nl := linkIn{Materials: arts{}, Products: arts{}}
-		unclean[name] = map[string]int{}
 		for side, a := range []arts{l.Materials, l.Products} {
 			for k, h := range a {
 				c, ok := oracleCleanName(k)
@@ -49,33 +44,9 @@ func oracleVerifyNormalised(in vInput) string {
 					return ""
 				}
 				target[c] = h
-				if c != k {
-					unclean[name][c]++
-				}
 			}
 		}
 		out.Meta[name] = nl
-	}
-	for _, it := range in.Items {
-		hasModify := false
-		for _, rules := range [][][]string{it.Mats, it.Prods} {
-			for _, r := range rules {
-				if o, ok, _ := oracleParse(r); ok && o.kind == "modify" {
-					hasModify = true
-				}
-			}
-		}
-		if !hasModify {
-			continue
-		}
-		l := out.Meta[it.Name]
-		for c, sides := range unclean[it.Name] {
-			hm, inM := l.Materials[c]
-			hp, inP := l.Products[c]
-			if inM && inP && !(sides == 1 && !hashEqual(hm, hp)) {
-				return ""
-			}
-		}
 	}
 	v, _, _ := oracleVerify(out)
 	return v
@@ -135,7 +106,26 @@ func uncleanCase(form string, vi, dir int, same bool) (vInput, string) {
 		it.Mats = [][]string{keep, {"DELETE", "*"}, {"ALLOW", "*"}, fin}
 	}
 	in := vInput{Items: []itemIn{it}, Meta: map[string]linkIn{"item": item, "dst": {Materials: arts{}, Products: arts{}}}}
+	if strings.HasPrefix(form, "modify") && dir != 3 {
+		// the repaired defect F21: MODIFY compared the hashes found under the cleaned name in the maps AS RECORDED
+		kind := "changed"
+		if same {
+			kind = "unchanged"
+		}
+		return in, "F21-modify-unclean-entry-" + form + "-" + []string{"material", "product", "both"}[dir] + "-" + kind
+	}
 	return in, "unclean-material-names-created-modified-deleted-" + form
+}
+
+// genF21: the two witnesses of F21 and their neighbours
+func genF21(k int) (vInput, string) {
+	form := []string{"modify-p", "modify-m"}[k%2]
+	dir := []int{0, 2, 1, 0, 2, 1}[k%6]
+	same := dir != 2 // an unchanged file with one unclean entry; a changed file with two unclean entries
+	if k%12 >= 6 {
+		same = !same
+	}
+	return uncleanCase(form, (k/2)%len(uncleanVariants), dir, same)
 }
 
 // ---------------------------------------------------------------- REQUIRE on an empty queue
